@@ -273,7 +273,22 @@ def _only_functions(rule, names, floor_rule, floor):
     def run(units, r):
         tmp = Results(config=r.config)
         rule(units, tmp)
-        kept = [o for o in tmp.obs if o.function in names]
+        # the named functions and the static helpers they (transitively) call: code moved into a helper stays in scope
+        scope = set(names)
+        work = list(names)
+        while work:
+            n_ = work.pop()
+            for u_ in units.values():
+                f_ = u_.functions.get(n_)
+                if f_ is None or f_.body is None:
+                    continue
+                for c_ in f_.calls():
+                    from .facts import callee_name as _cn
+                    g_ = u_.functions.get(_cn(c_))
+                    if g_ is not None and g_.static and g_.name not in scope:
+                        scope.add(g_.name)
+                        work.append(g_.name)
+        kept = [o for o in tmp.obs if o.function in scope]
         r.obs.extend(kept)
         r.notes.extend(tmp.notes)
         r.floor(floor_rule, 'obligations in %s' % sorted(names)[:3], len(kept), floor)
@@ -328,7 +343,7 @@ def run_C12(ctx, R):
     _per_config(ctx, R, tree.c12_structure)
     _per_config(ctx, R, _only_functions(tree.tab3, {'cJSON_Compare', 'cJSON_IsInvalid', 'cJSON_IsFalse', 'cJSON_IsTrue', 'cJSON_IsBool',
                                                     'cJSON_IsNull', 'cJSON_IsNumber', 'cJSON_IsString', 'cJSON_IsArray', 'cJSON_IsObject',
-                                                    'cJSON_IsRaw'}, 'TAB3', 12))
+                                                    'cJSON_IsRaw'}, 'TAB3', 4))
     _scoped(ctx, R, tab.tab11, {'cJSON_Compare'}, 4)
     _per_config(ctx, R, _only_functions(tree.lst4, {'cJSON_Compare'}, 'LST4', 1))
 
